@@ -45,14 +45,18 @@ class CA:
         open(self.conf, 'w').write(CA_CONF % dict(d=self.d))
         self.n = 0
 
-    def issue(self, subj, not_before=None, not_after=None, name=None):
+    def issue(self, subj, not_before=None, not_after=None, name=None, ec=False):
         """-> Cert. subj like '/C=EE/O=Guardtime/CN=x/emailAddress=a@b'. Times are unix seconds (default: now-1h .. now+2d)."""
         self.n += 1
         name = name or 'c%d' % self.n
         key = os.path.join(self.d, name + '.key')
         csr = os.path.join(self.d, name + '.csr')
         pem = os.path.join(self.d, name + '.pem')
-        sh(['openssl', 'req', '-newkey', 'rsa:%d' % self.bits, '-nodes', '-keyout', key, '-out', csr, '-subj', subj, '-sha256'])
+        if ec:
+            # an EC (P-256) key: `openssl dgst -sign` then yields DER encoded ECDSA signatures
+            sh(['openssl', 'req', '-newkey', 'ec', '-pkeyopt', 'ec_paramgen_curve:prime256v1', '-nodes', '-keyout', key, '-out', csr, '-subj', subj, '-sha256'])
+        else:
+            sh(['openssl', 'req', '-newkey', 'rsa:%d' % self.bits, '-nodes', '-keyout', key, '-out', csr, '-subj', subj, '-sha256'])
         nb = time.strftime('%Y%m%d%H%M%SZ', time.gmtime(not_before if not_before is not None else time.time() - 3600))
         na = time.strftime('%Y%m%d%H%M%SZ', time.gmtime(not_after if not_after is not None else time.time() + 2 * 86400))
         sh(['openssl', 'ca', '-batch', '-config', self.conf, '-cert', self.pem, '-keyfile', self.key, '-in', csr, '-out', pem, '-startdate', nb, '-enddate', na, '-notext'])
